@@ -156,24 +156,51 @@ pub fn worker_main(args: &[String]) -> i32 {
 /// Backstop for loops that never poll: 300 s of wall-clock per run, or 45 s without a single heartbeat
 /// (ticks of the logical clock - cancel polls, progress calls, op boundaries, intercepted syscalls - and
 /// units of harness-side checking work). Generous on purpose: a loaded machine must not look like a hang.
+/// CPU time (user + system, all threads) this process has consumed so far.
+fn process_cpu_seconds() -> f64 {
+    let mut ts = libc::timespec { tv_sec: 0, tv_nsec: 0 };
+    // SAFETY: plain syscall filling the struct
+    if unsafe { libc::clock_gettime(libc::CLOCK_PROCESS_CPUTIME_ID, &mut ts) } != 0 {
+        return 0.0;
+    }
+    ts.tv_sec as f64 + ts.tv_nsec as f64 * 1e-9
+}
+
+/// A plan that keeps the process busy without a heartbeat (an endless loop in the code under test that
+/// never reaches a poll), or for far too long, ends the worker. The limits are in *CPU seconds of this
+/// process*, so that a machine running many other things (which only stretches wall time) cannot
+/// produce a false `worker_died`; a wall-clock backstop remains for a process that neither runs nor beats.
 fn spawn_watchdog(current: std::sync::Arc<std::sync::atomic::AtomicU64>, started: std::sync::Arc<std::sync::Mutex<Instant>>) {
     std::thread::spawn(move || {
         let mut last_ticks = u64::MAX;
-        let mut last_change = Instant::now();
+        let mut cpu_at_change = process_cpu_seconds();
+        let mut wall_at_change = Instant::now();
+        let mut plan_started = *started.lock().unwrap();
+        let mut cpu_at_start = process_cpu_seconds();
         loop {
             std::thread::sleep(std::time::Duration::from_millis(500));
             let i = current.load(std::sync::atomic::Ordering::SeqCst);
+            let cpu = process_cpu_seconds();
+            let st = *started.lock().unwrap();
+            if st != plan_started {
+                plan_started = st;
+                cpu_at_start = cpu;
+            }
             if i == u64::MAX {
                 last_ticks = u64::MAX;
-                last_change = Instant::now();
+                cpu_at_change = cpu;
+                wall_at_change = Instant::now();
                 continue;
             }
             let ticks = crate::ctx::active().map_or(0, |c| c.heartbeat.load(std::sync::atomic::Ordering::SeqCst));
             if ticks != last_ticks {
                 last_ticks = ticks;
-                last_change = Instant::now();
+                cpu_at_change = cpu;
+                wall_at_change = Instant::now();
             }
-            if started.lock().unwrap().elapsed().as_secs() > 300 || last_change.elapsed().as_secs() > 45 {
+            let silent_cpu = cpu - cpu_at_change;
+            let plan_cpu = cpu - cpu_at_start;
+            if silent_cpu > 45.0 || plan_cpu > 600.0 || wall_at_change.elapsed().as_secs() > 1800 {
                 println!("H {i}");
                 std::process::exit(3);
             }
